@@ -1,6 +1,6 @@
 #!/bin/bash
 # usage: VERIF_REPO=<scratch repo> bash harness/seed_regress.sh : every archived seeded change against the check of its own property
-# (seeded/<Cxx>[-n]); one line per seed: "<seed> <check> exit=<e> ..."; exit=1 expected everywhere except where meta.json says otherwise.
+# (seeded/<Cxx>[-n]; C05-4 is neutralised by the repair 77e16f0 and expected to give exit=0); one line per seed: "<seed> <check> exit=<e> ..."; exit=1 expected everywhere except where meta.json says otherwise.
 cd "$(dirname "$0")/.."
 python3 harness/setup.py >/dev/null 2>&1
 for s in $(ls seeded); do
